@@ -59,7 +59,7 @@ func (c ccfg) String() string {
 }
 
 // sanctionCheck: every step containing a store Reset must contain a sanctioning event.
-func sanctionCheck(c ccfg, l *lab.Lab, from int) (viol []string) {
+func sanctionCheck(c ccfg, l *lab.Lab, from int, appSetsFlag bool) (viol []string) {
 	tr := l.Trace[from:]
 	i := 0
 	for i < len(tr) {
@@ -108,8 +108,16 @@ func sanctionCheck(c ccfg, l *lab.Lab, from int) (viol []string) {
 			switch {
 			case inLogonFlag && loggedOnAfter:
 				sanction = "received Logon 141=Y (accepted)"
-			case outLogonFlag:
-				sanction = "sent Logon 141=Y"
+			case outLogonFlag && inLogonFlag:
+				sanction = "sent Logon 141=Y echoing the peer's"
+			case outLogonFlag && (step[0].NextSender == 1 && step[0].NextTarget == 1):
+				sanction = "sent Logon 141=Y with both counters at 1 (nothing to lose)"
+			case outLogonFlag && c.Initiator && c.RLogon:
+				sanction = "sent Logon 141=Y because ResetOnLogon applies"
+			case outLogonFlag && strings.HasPrefix(desc, "check reset time"):
+				sanction = "sent Logon 141=Y because ResetSeqTime was crossed"
+			case outLogonFlag && appSetsFlag:
+				sanction = "sent Logon 141=Y because the application set the flag"
 			case inLogon && !c.Initiator && c.RLogon && loggedOnAfter:
 				sanction = "acceptor ResetOnLogon"
 			case desc == "connect" && c.Initiator && c.RLogon:
@@ -188,6 +196,7 @@ func cycles(c *core.Ctx, r *core.Result, idx int, rng *rand.Rand, verbose bool) 
 		}
 	}
 	from := 0
+	appResetSeen := false // (sticky for the history: sanctions are judged per batch of steps)
 	lostResetLogon := false // the engine's last Logon carried 141=Y and was never answered
 	for cyc := 1; cyc <= cf.Cycles; cyc++ {
 		before := snapshotStore(l)
@@ -196,6 +205,7 @@ func cycles(c *core.Ctx, r *core.Result, idx int, rng *rand.Rand, verbose bool) 
 		}
 		p := l.NewPeer()
 		if appReset := cf.Initiator && hasFlag && rng.Intn(8) == 0; appReset {
+			appResetSeen = true
 			// the application asks for a reset by setting the flag on the outgoing Logon in its ToAdmin callback
 			l.App.ToAdminFn = func(m *quickfix.Message) {
 				if m.IsMsgTypeOf("A") {
@@ -248,7 +258,7 @@ func cycles(c *core.Ctx, r *core.Result, idx int, rng *rand.Rand, verbose bool) 
 					fail("persistence/logon-timeout", fmt.Sprintf("a logon timeout changed counters (%d,%d) -> (%d,%d)", pre.S, pre.T, post.S, post.T))
 					return
 				}
-				for _, v := range sanctionCheck(cf, l, from) {
+				for _, v := range sanctionCheck(cf, l, from, appResetSeen) {
 					fail(v[:strings.Index(v, ":")], v)
 					return
 				}
@@ -272,7 +282,7 @@ func cycles(c *core.Ctx, r *core.Result, idx int, rng *rand.Rand, verbose bool) 
 				fail("refused-logon/established", "a Logon refused by the application established the session")
 				return
 			}
-			for _, v := range sanctionCheck(cf, l, from) {
+			for _, v := range sanctionCheck(cf, l, from, appResetSeen) {
 				fail(v[:strings.Index(v, ":")]+"/refused-logon", v)
 				return
 			}
@@ -504,7 +514,7 @@ func cycles(c *core.Ctx, r *core.Result, idx int, rng *rand.Rand, verbose bool) 
 				return
 			}
 		}
-		for _, v := range sanctionCheck(cf, l, from) {
+		for _, v := range sanctionCheck(cf, l, from, appResetSeen) {
 			fail(v[:strings.Index(v, ":")], v)
 			return
 		}
